@@ -392,3 +392,13 @@ Definition qdiv_list (c : list Q) (scale : Q) : list Q := map (fun x => Qmult x 
 Definition check_inv_acc_scaled (c : list Q) (scale kappa thmax : Q) (cells : list (Q * Q)) (tol : Q) : bool :=
   Qltb 0 scale && Qltb 0 kappa &&
   check_inv_acc (qdiv_list c scale) (Qinv kappa) (Qmult kappa kappa) thmax cells tol.
+
+(* ---- C09: the sup norm of a real-coefficient Laurent polynomial on the unit circle.
+   |f(w)|^2 = (f * ~f)(w) = sum_m s_m cos(2 m t); the series s is supplied and verified by an exact
+   Laurent-polynomial comparison, then bounded by the sup certificate. *)
+Definition autocorr_is (f : lpoly Q) (s : list Q) : bool :=
+  negb (lp_isz f) && lp_same (lp_mul OpsQ f (lp_inv OpsQ f)) (cheb_to_laurent false s).
+Definition check_infnorm_ub (f : lpoly Q) (s : list Q) (cells : list (Q * Q)) (M2 : Q) : bool :=
+  autocorr_is f s && check_sup s cells M2.
+Definition check_infnorm_lb (f : lpoly Q) (s : list Q) (theta m2 : Q) : bool :=
+  autocorr_is f s && check_exceeds s theta m2.
